@@ -365,6 +365,42 @@ def over(x, bound):
     return not (x <= bound)
 
 
+def predicate_members(case, res, tol_direct=1e-8, tol_krylov=2e-4, skip=(), full_pass=True):
+    """the predicate on the whole batch (shapes) and then MEMBER BY MEMBER, each member relative to its own scale
+    (a batch may mix members of very different scale or conditioning); `skip` = member indices not to be judged"""
+    A = opbuild.dense(res.get("eff_expr", case["expr"]), F64)
+    if A.dim() == 2 or res["kind"] != "ok":
+        return predicate(case, res, tol_direct, tol_krylov)
+    if full_pass:
+        w = predicate(case, res, tol_direct, tol_krylov)
+        if w:
+            return w
+    n, bs = A.shape[-1], list(A.shape[:-2])
+    Af = A.reshape(-1, n, n)
+    outs = {}
+    for k, v in res["out"].items():
+        if v is None:
+            outs[k] = None
+            continue
+        x = totensor(v)
+        tr = 1 if k in ("w", "S") else 2
+        if list(x.shape[:x.dim() - tr]) != bs:
+            try:
+                x = x.expand(*bs, *x.shape[x.dim() - tr:])
+            except RuntimeError:
+                return "output %s of shape %s does not broadcast to the batch shape %s" % (k, list(x.shape), bs)
+        outs[k] = x.reshape(-1, *x.shape[len(bs):])
+    for i in range(Af.shape[0]):
+        if i in skip:
+            continue
+        sub = {"cls": "Dense", "t": tolist(Af[i])}
+        w = predicate(dict(case, expr=sub), dict(res, out={k: (None if v is None else tolist(v[i])) for k, v in outs.items()}, eff_expr=sub),
+                      tol_direct, tol_krylov)
+        if w:
+            return "batch member %d: %s" % (i, w)
+    return None
+
+
 def predicate(case, res, tol_direct=1e-8, tol_krylov=2e-4):
     """None if the observed result satisfies C06 for this query, else a short description.
     Only meaningful for kind == ok.  Direct methods: relative tolerance tol_direct; a Krylov-based path (any lanczos
@@ -374,7 +410,7 @@ def predicate(case, res, tol_direct=1e-8, tol_krylov=2e-4):
         return None
     A = opbuild.dense(res.get("eff_expr", case["expr"]), F64)
     n = A.shape[-1]
-    scale = max(1.0, maxabs(A))
+    scale = maxabs(A) or 1.0          # RELATIVE to the operator's own scale (no floor at 1: operators of scale 1e-4 count)
     krylov = any(e[0] == "lanczos" for e in res["events"]) or case.get("method") in ("lanczos", "pivoted_cholesky")
     full_rank = all(e[2] >= e[1] for e in res["events"] if e[0] == "lanczos")
     if case.get("method") == "pivoted_cholesky":
@@ -418,7 +454,7 @@ def predicate(case, res, tol_direct=1e-8, tol_krylov=2e-4):
         if krylov and not full_rank:
             return None
         Ainv = torch.linalg.inv(A)
-        sc = max(1.0, maxabs(Ainv))
+        sc = maxabs(Ainv) or 1.0
         if over(maxabs(R @ R.mT - Ainv), tol * sc * max(1.0, float(torch.linalg.cond(A).max()))):
             return "R R^T differs from A^-1 by %.3g" % maxabs(R @ R.mT - Ainv)
         return None
